@@ -22,6 +22,7 @@ RULE = (
     "(plain: exact compare; p-value-like: numeric, finite, order-preserving); reject: Percolator score names, "
     "plain text, truncated XML, foreign XML. Non-trivial = a hit with >=2 modifications or a hit whose primary "
     "and alternative proteins disagree in prefix; distinct = (seed,index,rep)."
+    " Every third document: a call with exclude_features in between, then the default call again must return the identical table."
 )
 ASSUMPTIONS = [
     "column names of the returned frame (scan, charge, ret_time, exp_mass, calc_mass, ms_data_file, peptide, "
@@ -185,6 +186,27 @@ def run_docs(case):
             if len(df) != len(rows):
                 res.violate("row_count", "", got=len(df), expected=len(rows), **extra)
                 continue
+            if rep % 3 == 0:
+                # a call with other options in between (here: some search scores excluded from the features) must
+                # leave no trace: the same default call afterwards returns the same table
+                snames = sorted({k for r in rows for k in r["scores"]})
+                if snames:
+                    ex = snames[0] if rep % 2 else tuple(snames[: 1 + rep % 2 + 1])
+                    core.Call(mokapot.read_pepxml, arg, decoy_prefix=prefix, exclude_features=ex, to_df=True)
+                    c3 = core.Call(mokapot.read_pepxml, arg, decoy_prefix=prefix, to_df=True)
+                    res.count("repeated_default_calls")
+                    same = c3.ok and list(c3.value.columns) == list(df.columns) and len(c3.value) == len(df)
+                    if same:
+                        for col in df.columns:
+                            a, b = df[col].reset_index(drop=True), c3.value[col].reset_index(drop=True)
+                            if str(a.dtype) != str(b.dtype) or not a.equals(b):
+                                same = False
+                                extra = dict(extra, differing_column=col, dtypes=[str(a.dtype), str(b.dtype)])
+                                break
+                    if not same:
+                        res.violate("result_depends_on_earlier_call", "exclude_features", excluded=list(ex) if isinstance(ex, tuple) else ex,
+                                    second_ok=c3.ok, **extra)
+                        continue
             df = df.reset_index(drop=True)
             bad = None
             for col, conv in (("ms_data_file", str), ("scan", int), ("charge", int), ("ret_time", float),
